@@ -31,7 +31,13 @@ fn usage() -> ! {
 
 fn main() {
     // Panics inside the client are caught per execution and judged by the oracle; keep stderr quiet.
-    std::panic::set_hook(Box::new(|_| {}));
+    // Harness failures ("machinery: ...") are printed.
+    std::panic::set_hook(Box::new(|info| {
+        let text = info.payload().downcast_ref::<&str>().map(|s| s.to_string()).or_else(|| info.payload().downcast_ref::<String>().cloned()).unwrap_or_default();
+        if text.starts_with("machinery:") && std::thread::current().name() == Some("main") {
+            eprintln!("{}", text);
+        }
+    }));
     let args: Vec<String> = std::env::args().collect();
     if args.len() < 2 {
         usage();
